@@ -67,6 +67,8 @@ var commonAssumptions = []string{
 const realVsStub = "real: client, frame, segment, message, primitive, datatype, compression, crc packages (instrumented copy of the working tree), Go channels/mutexes/contexts/timers; stub: TCP (sim/net.go), clock (synctest), OS scheduler (seeded baton), logging (zerolog disabled)"
 
 var cfgs = map[string]*propCfg{
+	"C10": {Profile: "client", QuickCases: 2400, ThoroughCases: 150000, QuickSecs: 100, ThoroughSecs: 1500, Level: "exploration",
+		Rule: "case = one seeded fault-free session on a real client connection (version, compression, limits, link all drawn): 1-8 concurrent senders x 1-5 tagged requests; the peer holds requests back and answers in a drawn permutation with drawn gaps, multi-page (DSE continuous paging) responses of 1..MaxPending pages, interleaved events and responses for stream ids that are not in flight; consumers read at a drawn pace. Oracle over the recorded history: every response sent is received exactly once, by the request with its tag, pages in order, request completed on the last page; events exactly once on the event channel and per handler. distinct = distinct event-log fingerprints; non-trivial = at least two requests accepted and at least one switch between tasks inside repository code"},
 	"C09": {Profile: "client", QuickCases: 6400, ThoroughCases: 400000, QuickSecs: 100, ThoroughSecs: 1500, Level: "exploration",
 		Rule: "case = one seeded concurrent history on the real in-flight request handler (N, managed or explicit ids, 1-4 senders, a deliverer issuing final/non-final/unknown-id responses, optional concurrent close; interleaved at statement granularity), checked (1) for linearizability against the sequential stream-id model with porcupine, (2) for operations that block, (3) for id recycling at the final quiescent checkpoint. distinct = distinct event-log fingerprints; non-trivial = at least two operations of different clients overlapped in the history",
 		Assumptions: []string{"handler reached through a generated export shim (client/zz_verif_shim.go); mixing managed and explicit ids on one handler is not generated (the API documents it as not recommended and the statement does not cover it)"}},
